@@ -107,6 +107,11 @@ def run_common(ctx, m):
     kind = gen.pick(rng, ['pos', 'ties', 'neg', 'eucl'])
     v1 = gen.rdm_vectors(rng, n1, n_cond, kind)
     v2 = gen.rdm_vectors(rng, n2, n_cond, gen.pick(rng, ['pos', 'ties', 'eucl']))
+    # a quarter of the stacks are stored in single precision (partial RDMs read from a float32 file): missing entries are
+    # missing entries whatever the width of the floats; the reference works on the values as stored
+    f32 = bool(rng.integers(4) == 0)
+    if f32:
+        v1, v2 = v1.astype(np.float32).astype(float), v2.astype(np.float32).astype(float)
     if not usable(list(v1) + list(v2), keep):
         ctx.count('rejected_degenerate')
         return
@@ -119,8 +124,9 @@ def run_common(ctx, m):
     kw = {'sigma_k': sigma} if m.endswith('_cov') else {}
     wit = lambda **k: dict(measure=m, a=a, b=b, sigma_k=sigma, n_cond=n_cond, **k)  # noqa: E731
     as_rdms = bool(rng.integers(2))
-    ok, got = ctx.guarded('common_mask:' + m, sig, compare, RDMs(a.copy()) if as_rdms else a.copy(),
-                          RDMs(b.copy()) if as_rdms else b.copy(), method=m, data=wit, **kw)
+    st = (lambda z: z.astype(np.float32)) if f32 else (lambda z: z.copy())
+    ok, got = ctx.guarded('common_mask:' + m, sig, compare, RDMs(st(a)) if as_rdms else st(a),
+                          RDMs(st(b)) if as_rdms else st(b), method=m, data=wit, **kw)
     if not ok:
         return
     ctx.case('common_mask:' + m, sig, sample={'measure': m, 'mask': mk, 'keep': keep, 'sigma': sk})
